@@ -194,6 +194,8 @@ static void wn_thread (int me) {
 }
 static void wn_observer (void) {
 	int i, j; unsigned left;
+	for (i = 0; i < h_nthreads; i++) if (!mc_fiber_done (i) && !cr[i].active && !sleeping_plain[i])
+		mc_fail ("T%d is blocked for ever in an operation that is not a wait: nobody is left to wake it", i);
 	/* progress: nobody may sleep in nsync_wait_n with a ready note or counter in its set */
 	for (i = 0; i < MC_MAXF; i++) if (cr[i].active) {
 		for (j = 0; j < cr[i].n; j++) if (cr[i].set[j] != OV && ready_stamp[cr[i].set[j]])
